@@ -90,4 +90,5 @@ static Register r2("c14.n3s3pk3", "C14", "TA(3,{a:0,f:1,g:2},<=3) x all 27+3 sta
 static Register r3("c14.n2s3k5", "C14", "TA(2,{a:0,b:0,f:1,g:2},<=5) x all 4+3 state maps x all 625 symbol maps", [](Env& e) { body(e, "c14.n2s3k5", 2, dom::Sigma3(), 5); });
 
 static Register r4("c14.n3s3pk4", "C14", "TA(3,{a:0,f:1,g:2},<=4) x all 27+3 state maps x all 64 symbol maps", [](Env& e) { body(e, "c14.n3s3pk4", 3, dom::Sigma3p(), 4); });
+static Register r5("c14.n2afhk3", "C14", "TA(2,{a:0,f:1,h:3},<=3) x all 4+3 state maps x all 64 symbol maps (ternary rules)", [](Env& e) { body(e, "c14.n2afhk3", 2, dom::SigmaAFH(), 3); });
 }  // namespace c14
